@@ -407,6 +407,30 @@ theorem pairs_bounds (inp : Input) (hwf : WF inp) (δ : Rat) (u : DUnit) (relTol
   | degrees => exact pairs_bounds_angle _ _ _ _ _ _ _ _ hwf.2 ps hsel i j h
   | other => simp [selected] at hsel
 
+/-- the class route `metrics.RPE`: a selection is returned only for `δ ≥ 0` (frames: an integer `δ`),
+and it is exactly what `id_pairs_from_delta` returns for the requested `δ`, unit, tolerance and mode;
+a negative / non-integer-frames `δ` is the constructor's error, an empty selection the filter error -/
+theorem rpe_route (inp : Input) (δ : Rat) (u : DUnit) (relTol : Rat) (allPairs : Bool) (ps : IdPairs) :
+    rpePairs inp δ u relTol allPairs = .ok ps ↔
+      (0 ≤ δ ∧ (u = .frames → (δ.floor : Rat) = δ) ∧
+        idPairsFromDelta inp (if u = .frames then ((toFrames δ : Nat) : Rat) else δ) u relTol allPairs = .ok ps) := by
+  unfold rpePairs
+  by_cases h1 : δ < 0
+  · simp [h1, not_le.mpr h1]
+  · by_cases h2 : u = .frames ∧ (δ.floor : Rat) ≠ δ
+    · rw [if_neg h1, if_pos h2]
+      constructor
+      · intro h; cases h
+      · rintro ⟨_, hf, _⟩; exact absurd (hf h2.1) h2.2
+    · rw [if_neg h1, if_neg h2]
+      have h2' : u = .frames → (δ.floor : Rat) = δ := by
+        intro hu; by_contra hne; exact h2 ⟨hu, hne⟩
+      cases hsel : idPairsFromDelta inp (if u = .frames then ((toFrames δ : Nat) : Rat) else δ) u relTol allPairs with
+      | error e => simp [not_lt.mp h1]
+      | ok qs =>
+        simp only [Except.ok.injEq, not_lt.mp h1, true_and]
+        exact ⟨fun h => ⟨h2', h⟩, fun h => h.2⟩
+
 /-! ## order / uniqueness of the all-pairs selections, degrees band -/
 
 /-- the all-pairs path selection is sorted by start pose and has no duplicates -/
@@ -477,5 +501,9 @@ example : idPairsFromDelta exInput 45 .degrees 0 false = .ok [(0, 2), (2, 3)] :=
 example : idPairsFromDelta exInput 7 .meters (1/10) false = .error .filter := by decide +kernel
 example : idPairsFromDelta exInput 9 .radians 0 false = .error .filter := by decide +kernel
 example : idPairsFromDelta exInput 2 .frames (1/10) false = .ok [(0, 2), (2, 4)] := by decide +kernel
+example : rpePairs exInput 2 .frames (1/10) false = .ok [(0, 2), (2, 4)] := by decide +kernel
+example : rpePairs exInput (5/2) .frames (1/10) false = .error .metrics := by decide +kernel
+example : rpePairs exInput (-1) .meters 0 true = .error .metrics := by decide +kernel
+example : rpePairs exInput 2 .meters 0 true = .ok [(0, 2)] := by decide +kernel
 
 end Evo.C10
